@@ -5,12 +5,13 @@ import Bng.Model.DhcpTerm
   real nat.Manager, qos.Manager, ebpf.Loader (real kernel maps) and a loopback RADIUS accounting server
   (harness/cmd/dhcpterm) on the model Bng.DhcpTerm and runs the residue monitor on the implementation's snapshots.
 
-    new radius|noradius <leaseSecs>
+    new radius|noradius <leaseSecs> [h1|h5]
     disc m<k> c<j>|-          req m<k> a<n> c<j>|-          rel m<k>          dec m<k> a<n>
     tick <secs>               cleanup                       gap <rel|dec|cleanup …>
     split <rel|dec …> / <rel|dec|cleanup …>                 shutdown
+    estgap m<k> a<n> c<j>|- / <rel|dec|cleanup …>           a REQUEST with a termination inside its unlock window
 
-  Observation: <reply> t= L= P= F= U= Q= Qi= Qn= N= Nk= Nn= Km= Kv= Kc= Kh= A=   (see the harness).
+  Observation: <reply> t= L= C= P= F= U= Q= Qi= Qn= N= Nk= Nn= Km= Kv= Kc= Kh= A=   (see the harness).
   The order in which a cleanup pass visits expired leases (Go map iteration) is read off the implementation's free
   list `F=` and handed to the model as the `order` parameter.
 -/
@@ -39,8 +40,12 @@ def showSnapshot (s : State) : String :=
   let ps := (sortBy (fun (a b : Nat × Nat) => a.1 ≤ b.1) s.pool.allocated).map fun (k, a) => s!"m{k}:a{a}"
   let addrs := fun (l : List Nat) => joinOr ((sortNat l).map fun a => s!"a{a}")
   let cids := fun (l : List (Nat × Nat)) => joinOr ((sortPair l).map showCidKey)
-  let acs := (sortBy (fun (a b : Nat × Sess) => a.1 ≤ b.1) s.acct).map fun (k, r) => s!"{k}:m{r.mac}:{r.starts}:{r.stops}"
-  s!"t={s.now} L={joinOr ls} P={joinOr ps} F={joinOr (s.pool.avail.map fun a => s!"a{a}")} U={addrs s.pool.unavailable} " ++
+  let acs := (sortBy (fun (a b : Nat × Sess) => a.1 ≤ b.1) s.acct).map fun (k, r) => s!"{k}:m{r.mac}:{r.starts}:{r.stops}{if s.early.contains k then ":x" else ""}"
+  let idx : List ((Nat × Nat) × Lease) :=
+    (s.leases.filterMap fun (k, l) => l.cid.map fun c => ((k, c), l)) ++ s.stale
+  let cs := (sortBy (fun (a b : (Nat × Nat) × Lease) => a.1.1 < b.1.1 || (a.1.1 == b.1.1 && a.1.2 ≤ b.1.2)) idx).map
+    fun (k, l) => s!"{showCidKey k}:a{l.ip}:{l.exp}"
+  s!"t={s.now} L={joinOr ls} C={joinOr cs} P={joinOr ps} F={joinOr (s.pool.avail.map fun a => s!"a{a}")} U={addrs s.pool.unavailable} " ++
   s!"Q={addrs s.qos} Qi={addrs s.qos} Qn={s.qos.length} N={addrs s.nat} Nk={addrs s.nat} Nn={s.nat.length} " ++
   s!"Km={joinOr ((sortNat s.kMac).map fun m => s!"m{m}")} Kv={joinOr (s.kVlan.map fun v => s!"v{v.1}.{v.2}")} Kc={cids s.kCid} Kh={cids s.kHash} " ++
   s!"A={joinOr acs}"
@@ -74,6 +79,19 @@ def splitAt (toks : List String) : Option (List String × List String) :=
   match idx.getLast? with
   | some i => if i ≥ 1 && i + 1 < toks.length then some (toks.take i, toks.drop (i + 1)) else none
   | none => none
+
+/-- estgap m<k> a<n> c<j>|- / <termination> -/
+def parseEstGap (toks : List String) : Option (Nat × Nat × Option Nat × Term) :=
+  match toks with
+  | "estgap" :: m :: a :: c :: "/" :: rest => do
+      let m ← parseMac m; let a ← parseAddr a; let c ← parseCid c
+      let t ← (match rest with
+        | ["rel", m2] => (parseMac m2).map Term.rel
+        | ["dec", m2, a2] => do let m2 ← parseMac m2; let a2 ← parseAddr a2; pure (Term.dec m2 a2)
+        | ["cleanup"] => some (Term.cleanup [])
+        | _ => none)
+      if 1 ≤ m && m ≤ 9 && a ≤ 15 then pure (m, a, c, t) else none
+  | _ => none
 
 def parseOp (toks : List String) : Option Op :=
   match toks with
@@ -137,9 +155,15 @@ def parseSnap (impl : String) : Snap :=
     kVlan := raw "Kv",
     kCid := kc.filterMap parseCidKey, kHash := kh.filterMap parseCidKey,
     acct := (raw "A").filterMap fun it => match it.splitOn ":" with
-      | [o, m, st, sp] => do
+      | o :: m :: st :: sp :: _ => do
           let o ← o.toNat?; let m ← parseTagged 'm' m; let st ← st.toNat?; let sp ← sp.toNat?
           pure (o, m, st, sp)
+      | _ => none,
+    idx := (raw "C").filterMap fun it => match it.splitOn ":" with
+      | [k, a, _] => do let k ← parseCidKey k; let a ← parseTagged 'a' a; pure (k, a)
+      | _ => none,
+    early := (raw "A").filterMap fun it => match it.splitOn ":" with
+      | [o, _, _, _, "x"] => o.toNat?
       | _ => none,
     skew := skew }
 
@@ -148,6 +172,9 @@ def parseSnap (impl : String) : Snap :=
 structure St where
   model : Option State := none
   prev  : Snap := {}
+  /-- MACs / addresses whose establishment was raced by a termination that ended the session, in this sequence -/
+  racedMacs : List Nat := []
+  racedAddrs : List Nat := []
 
 def showReply : Reply → String
   | .offer ip => s!"offer:a{ip}"
@@ -196,25 +223,46 @@ def splitRefused (m : State) (a b : Term) : Bool :=
     | none => false
 
 def step (st : St) (toks : List String) (impl : String) : St × LineResult :=
-  match toks with
-  | ["new", r, secs] =>
+  let newRun := fun (r secs : String) =>
     match secs.toNat? with
     | some lt =>
       if (r == "radius" || r == "noradius") && 1 ≤ lt && lt ≤ 100000 then
         let m := init (r == "radius") lt
-        ({ model := some m, prev := parseSnap impl }, { modelObs := "ok " ++ showSnapshot m })
+        (({ model := some m, prev := parseSnap impl, racedMacs := [], racedAddrs := [] } : St), ({ modelObs := "ok " ++ showSnapshot m } : LineResult))
       else (st, { modelObs := "badop" })
     | none => (st, { modelObs := "badop" })
+  match toks with
+  | ["new", r, secs] => newRun r secs
+  -- h1 / h5: the hardware-address length of m5 in this run (m6: 7 bytes, m7: 16 bytes); a MAC is a MAC to the model
+  | ["new", r, secs, h] => if h == "h1" || h == "h5" then newRun r secs else (st, { modelObs := "badop" })
   | _ =>
-    match st.model, parseOp toks with
-    | some m, some op =>
+    match st.model with
+    | none => (st, { modelObs := "badop" })
+    | some m =>
       let order := orderFrom m impl
       let implHead := (splitTokens impl).headD ""
+      -- the circuit-id of a DISCOVER matters only when the index holds a stale entry (after a raced establishment)
+      let discCid : Option Nat := match toks with
+        | ["disc", _, c] => (parseCid c).getD none
+        | _ => none
       -- fill in the map-iteration order; decide reply prefix, model state, monitor kind
       let res : Option (State × String × Kind) :=
+        match parseEstGap toks with
+        | some (k, a, c, inner) =>
+          let inner := withOrder order inner
+          let (m', r, ran) := estGap m k a c inner
+          let m' := fixStale m'
+          if ran then
+            some (m', s!"estgap {showReply r} {termReply inner}",
+                  { terms := termKind inner, sweep := isCleanup inner, established := some (k, a) })
+          else some (m', s!"estgap {showReply r} notrun", {})
+        | none =>
+        match parseOp toks with
+        | none => none
+        | some op =>
         match op with
-        | .disc k => let (m', r) := discover m k; some (m', showReply r, {})
-        | .req k a c => let (m', r) := request m k a c; some (m', showReply r, {})
+        | .disc k => let (m', r) := stepX m (.disc k discCid); some (m', showReply r, {})
+        | .req k a c => let (m', r) := stepX m (.op (.req k a c)); some (m', showReply r, {})
         | .tick n => some ((DhcpTerm.step m (.tick n)).1, "ok", {})
         | .term t =>
           let t := withOrder order t
@@ -239,10 +287,21 @@ def step (st : St) (toks : List String) (impl : String) : St × LineResult :=
       match res with
       | none => (st, { modelObs := "badop" })
       | some (m', reply, kind) =>
+        let m' := fixStale m'
         let cur := parseSnap impl
-        let vs := monitor st.prev cur kind
-        ({ model := some m', prev := cur }, { modelObs := reply ++ " " ++ showSnapshot m', viols := vs })
-    | _, _ => (st, { modelObs := "badop" })
+        -- a raced establishment whose session the inner termination ended: the MAC and the address stay tainted
+        let lost : Option (Nat × Nat) := match kind.established with
+          | some (em, eip) => if (AMap.lookup m'.leases em).isNone then some (em, eip) else none
+          | none => none
+        let rm := match lost with
+          | some (em, _) => em :: st.racedMacs
+          | none => st.racedMacs
+        let ra := match lost with
+          | some (_, eip) => eip :: st.racedAddrs
+          | none => st.racedAddrs
+        let vs := monitor st.prev cur { kind with racedMacs := rm, racedAddrs := ra }
+        ({ model := some m', prev := cur, racedMacs := rm, racedAddrs := ra },
+         { modelObs := reply ++ " " ++ showSnapshot m', viols := vs })
 
 def component : Component := { σ := St, init := {}, step := step }
 
